@@ -116,50 +116,50 @@ Proof.
     + destruct s; [discriminate|]. exact Hd.
 Qed.
 
-(* the faithful model *)
+(* the working tree's variant *)
 Theorem protect_roundtrip_partial_std : forall s,
-  legal_symbol s -> s <> EmptyString ->
-  (In s std_reserved -> In s gen_tokenNames) ->
+  legal_symbol s -> (s <> EmptyString \/ v_quote_empty faithful = true) ->
+  (In s std_reserved -> In s (v_table faithful)) ->
   read_symbol std_cfg (protectName faithful s false) = Some s.
 Proof.
   intros s Hl Hne Hres. apply protect_roundtrip_general.
   - exact std_cfg_ok.
   - exact simple_sub_std.
   - exact Hl.
-  - left. destruct s; [congruence|reflexivity].
-  - cbn [lc_reserved std_cfg osmt_cfg v_table faithful]. intros H. apply mem_str_In. apply Hres. apply mem_str_In. exact H.
+  - destruct Hne as [Hne|Hq]; [left; destruct s; [congruence|reflexivity] | right; exact Hq].
+  - cbn [lc_reserved std_cfg]. intros H. apply mem_str_In. apply Hres. apply mem_str_In. exact H.
   - cbn [lc_neg_numerals std_cfg]. discriminate.
 Qed.
 
 Theorem protect_roundtrip_partial_osmt : forall s,
-  legal_symbol s -> s <> EmptyString ->
-  (In s gen_lexer_reserved -> In s gen_tokenNames) ->
-  neg_numlike s = false ->
+  legal_symbol s -> (s <> EmptyString \/ v_quote_empty faithful = true) ->
+  (In s gen_lexer_reserved -> In s (v_table faithful)) ->
+  (neg_numlike s = false \/ v_quote_minus_digit faithful = true) ->
   read_symbol osmt_cfg (protectName faithful s false) = Some s.
 Proof.
   intros s Hl Hne Hres Hnn. apply protect_roundtrip_general.
   - exact osmt_cfg_ok.
   - exact simple_sub_osmt.
   - exact Hl.
-  - left. destruct s; [congruence|reflexivity].
-  - cbn [lc_reserved std_cfg osmt_cfg v_table faithful]. intros H. apply mem_str_In. apply Hres. apply mem_str_In. exact H.
-  - intros _ H. rewrite H in Hnn. discriminate.
+  - destruct Hne as [Hne|Hq]; [left; destruct s; [congruence|reflexivity] | right; exact Hq].
+  - cbn [lc_reserved osmt_cfg]. intros H. apply mem_str_In. apply Hres. apply mem_str_In. exact H.
+  - intros _ H. destruct Hnn as [Hnn|Hq]; [rewrite H in Hnn; discriminate | exact Hq].
 Qed.
 
-(* where the faithful model fails *)
+(* where the pinned code fails *)
 Definition roundtrip_fails (cfg : lexcfg) (v : variant) (s : string) : Prop :=
   legal_symbol s /\ read_symbol cfg (protectName v s false) <> Some s.
 
-Theorem protect_roundtrip_refuted_reserved : roundtrip_fails std_cfg faithful "_" /\ roundtrip_fails osmt_cfg faithful "_"
-  /\ roundtrip_fails std_cfg faithful "!" /\ roundtrip_fails osmt_cfg faithful "DECIMAL"
-  /\ roundtrip_fails std_cfg faithful "match" /\ roundtrip_fails std_cfg faithful "check-sat-assuming".
+Theorem protect_roundtrip_refuted_reserved : roundtrip_fails std_cfg pinned "_" /\ roundtrip_fails osmt_cfg pinned "_"
+  /\ roundtrip_fails std_cfg pinned "!" /\ roundtrip_fails osmt_cfg pinned "DECIMAL"
+  /\ roundtrip_fails std_cfg pinned "match" /\ roundtrip_fails std_cfg pinned "check-sat-assuming".
 Proof. repeat split; vm_compute; try reflexivity; discriminate. Qed.
 
-Theorem protect_roundtrip_refuted_numlike : roundtrip_fails osmt_cfg faithful "-5" /\ roundtrip_fails osmt_cfg faithful "-1/3"
-  /\ roundtrip_fails osmt_cfg faithful "-0.5".
+Theorem protect_roundtrip_refuted_numlike : roundtrip_fails osmt_cfg pinned "-5" /\ roundtrip_fails osmt_cfg pinned "-1/3"
+  /\ roundtrip_fails osmt_cfg pinned "-0.5".
 Proof. repeat split; vm_compute; try reflexivity; discriminate. Qed.
 
-Theorem protect_roundtrip_refuted_empty : roundtrip_fails std_cfg faithful "" /\ roundtrip_fails osmt_cfg faithful "".
+Theorem protect_roundtrip_refuted_empty : roundtrip_fails std_cfg pinned "" /\ roundtrip_fails osmt_cfg pinned "".
 Proof. repeat split; vm_compute; try reflexivity; discriminate. Qed.
 
 (* the repaired variant: every legal name, both lexers *)
@@ -224,5 +224,5 @@ Qed.
 
 (* outside the legal names the printer is not injective (API level: a name that already carries bars) *)
 Theorem protect_injective_illegal_refuted : exists s1 s2,
-  s1 <> s2 /\ protectName faithful s1 false = protectName faithful s2 false.
+  s1 <> s2 /\ protectName pinned s1 false = protectName pinned s2 false.
 Proof. exists "|a b|", "a b". split; [discriminate|vm_compute; reflexivity]. Qed.
